@@ -1,7 +1,7 @@
 SPECIFICATION SeededSpec
 CONSTANTS
   MaxCommits = 7
-  MaxOps = 4
+  MaxOps = 3
   MaxActs = 2
   EmptyPolicies = {"keep", "all"}
   AllowFinding = FALSE
